@@ -111,9 +111,17 @@ func NewHTTPStoreCache(key []byte, store store.Store) *httpCache {
 
 // Get get http cache
 func (hc *httpCache) Get() (status Status, response *HTTPResponse) {
+	status, response, _ = hc.GetWithAge()
+	return
+}
+
+// GetWithAge get http cache and the age of response(only for hit).
+// The age is calculated by the lookup which decides the status (same lock and same clock),
+// so it's never greater than the ttl of cache and always the age of the response returned.
+func (hc *httpCache) GetWithAge() (status Status, response *HTTPResponse, age int) {
 	verifPoint("get.lock", hc)
 	hc.mu.Lock()
-	status, done, response := hc.get()
+	status, done, response, age := hc.get()
 	verifPoint("get.done", hc, int(status), done != nil)
 	hc.mu.Unlock()
 	// 如果done不为空，表示需要等待确认当前请求状态
@@ -127,7 +135,7 @@ func (hc *httpCache) Get() (status Status, response *HTTPResponse) {
 		// 不加锁直接读取会导致同一个key有多个请求同时转发至后端
 		verifPoint("get.lock", hc)
 		hc.mu.Lock()
-		status, done, response = hc.get()
+		status, done, response, age = hc.get()
 		verifPoint("get.done", hc, int(status), done != nil)
 		hc.mu.Unlock()
 	}
@@ -219,7 +227,7 @@ func (hc *httpCache) saveToStore() (err error) {
 	return hc.store.Set(hc.key, data, ttl)
 }
 
-func (hc *httpCache) get() (status Status, done chan struct{}, data *HTTPResponse) {
+func (hc *httpCache) get() (status Status, done chan struct{}, data *HTTPResponse, age int) {
 	now := nowUnix()
 	// 如果首次创建并且设置store
 	if hc.status == StatusUnknown {
@@ -259,6 +267,7 @@ func (hc *httpCache) get() (status Status, done chan struct{}, data *HTTPRespons
 	// 当其它goroutine获取锁之后，有可能刚好重置数据
 	if status == StatusHit {
 		data = hc.response
+		age = int(now - hc.createdAt)
 	}
 	return
 }
